@@ -349,10 +349,43 @@ func c02GenSweep(r *ev.Rand, thorough bool) *c02Case {
 	return cs
 }
 
+// c02GenLadder: an object in compact storage whose header is brought to within a byte of its
+// capacity by REPLACING an existing attribute with a string that is one character longer
+// each time (the replace path has its own fits-check).
+func c02GenLadder(r *ev.Rand, step int) *c02Case {
+	cs := &c02Case{Script: &hx.Script{SB: []uint8{0, 2, 3}[r.Intn(3)]}}
+	s := cs.Script
+	dt := []string{"i32", "f64", "i8", "u16"}[r.Intn(4)]
+	v0 := hx.GenNumeric(r, "[]"+dt, 4, 2)
+	s.Ops = append(s.Ops, hx.Op{K: "create_ds", Path: "/obj0", DT: dt, Dims: []uint64{4}, Data: &v0, Expect: "ok"})
+	cs.Targets, cs.Kinds = []string{"/obj0"}, []string{"dataset-session"}
+	n := hx.ScalarOf(r, "i32")
+	short := hx.Val{Kind: "str", S: []string{"0123456789"}}
+	s.Ops = append(s.Ops, hx.Op{K: "attr", Path: "/obj0", Name: "n", Data: &n}, hx.Op{K: "attr", Path: "/obj0", Name: "s", Data: &short})
+	if r.Bool() {
+		s.Ops = append(s.Ops, hx.Op{K: "close"}, hx.Op{K: "reopen"}, hx.Op{K: "opends", Path: "/obj0"})
+		cs.Kinds[0] = "dataset-reopened"
+	}
+	// the string grows by one character per replacement until the header is full and storage
+	// goes dense: every header size up to the capacity occurs on the way
+	for L := 40 + step%7; L < 200; L++ {
+		long := hx.Val{Kind: "str", S: []string{strings.Repeat("x", L)}}
+		s.Ops = append(s.Ops, hx.Op{K: "attr", Path: "/obj0", Name: "s", Data: &long})
+	}
+	// and something afterwards
+	m := hx.ScalarOf(r, "i16")
+	s.Ops = append(s.Ops, hx.Op{K: "attr", Path: "/obj0", Name: "m", Data: &m})
+	return cs
+}
+
 func c02Run(c *ev.Ctx) {
 	r := c.R
 	steered := c.Index%3 == 0
 	cs := c02Gen(r, c.Thorough(), steered)
+	if c.Index%10 == 4 {
+		steered = true
+		cs = c02GenLadder(r, c.Index/10)
+	}
 	if c.Index%5 == 2 {
 		steered = false
 		cs = c02GenSweep(r, c.Thorough())
@@ -581,7 +614,7 @@ func c02Run(c *ev.Ctx) {
 var C02 = &ev.Property{
 	ID:    "C02",
 	Level: "exploration",
-	Rule: "each case is a seeded history of 1-300 WriteAttribute/DeleteAttribute calls on 1-2 objects (dataset created in the session, dataset reopened through OpenForWrite+OpenDataset, group through GroupWriter) over a pool of 4-40 names (long, UTF-8, 255+ bytes, empty) and values (11 scalar kinds, strings 0-300 bytes, []int32/int64/float32/float64 of 1-64 elements, unsupported kinds), in three shapes (random mix; grow-shrink-grow across the 8-attribute threshold; overwrite-heavy), with 0-2 extra close/reopen points; every third case is steered (small values, no neighbours, single session); hard links to the object are created between attribute writes; every fifth case is a sweep: 340 new attributes (negative float arrays under names of 1-24 characters) on one dataset in dense storage, whose stored messages end at hundreds of different positions relative to the page boundaries of the heap block. " +
+	Rule: "each case is a seeded history of 1-300 WriteAttribute/DeleteAttribute calls on 1-2 objects (dataset created in the session, dataset reopened through OpenForWrite+OpenDataset, group through GroupWriter) over a pool of 4-40 names (long, UTF-8, 255+ bytes, empty) and values (11 scalar kinds, strings 0-300 bytes, []int32/int64/float32/float64 of 1-64 elements, unsupported kinds), in three shapes (random mix; grow-shrink-grow across the 8-attribute threshold; overwrite-heavy), with 0-2 extra close/reopen points; every third case is steered (small values, no neighbours, single session); hard links to the object are created between attribute writes; every tenth case replaces one compact attribute 160 times by a string one character longer each time (the header passes through every size up to its 255-byte capacity and on into dense storage); every fifth case is a sweep: 340 new attributes (negative float arrays under names of 1-24 characters) on one dataset in dense storage, whose stored messages end at hundreds of different positions relative to the page boundaries of the heap block. " +
 		"A map model is stepped with the call outcomes (empty name / unsupported kind must fail, delete of an absent name must fail, delete of a present name must succeed); after Close and reopen names, datatype class/size/sign, shape, raw bytes and ReadValue are compared. " +
 		"non-trivial: >=3 operations; distinct = (superblock, target kinds, steered, max live/4, crossed 8 upward, shrank back, size-changing/same-size overwrite seen, delete present/absent seen, ops/25).",
 	Assumptions: []string{
